@@ -344,6 +344,38 @@ func runC05(r *Run, replay *Case) {
 			r.Add(cd)
 		}
 	}
+	// props whose NAMES are also words of the template language on other tags (`required`, `require` — the validation list of a plain
+	// <template>) are ordinary props on an include tag, in every form; the includer's variable of the same name is shadowed inside only
+	for pi, pc := range []struct{ attrs, comp, want string }{
+		{`:required="flag" name="n"`, `<i>«{{ required }}|{{ name }}»</i>`, "true|n"},
+		{`required="R" name="n"`, `<i>«{{ required }}|{{ name }}»</i>`, "R|n"},
+		{`:require="num" required="yes"`, `<i>«{{ require }}|{{ required }}»</i>`, "42|yes"},
+		{`v-bind:required="flag"`, `<i>«{{ required }}»</i>`, "true"},
+		{`:required="flag" name="n"`, `<template :required="required,name"><i>«{{ required }}|{{ name }}»</i></template>`, "true|n"},
+		{`required="{{ src }}"`, `<i>«{{ required }}»</i>`, "SRCVAL"},
+	} {
+		for _, tag := range []bool{false, true} {
+			inc := `<template include="components/Field.vuego" ` + pc.attrs + `></template>`
+			if tag {
+				inc = `<field ` + pc.attrs + `></field>`
+			}
+			ff := map[string]string{"p.vuego": `<b>«before:{{ required }}»</b>` + inc + `<b>«after:{{ required }}»</b>`, "components/Field.vuego": pc.comp}
+			d := map[string]any{"flag": true, "num": 42, "src": "SRCVAL", "required": "PAGE"}
+			rr := renderPage(ff, "p.vuego", d, vuego.WithComponents())
+			pendingPages = append(pendingPages, pageCase("propnames", ff, map[string]string{"field": "components/Field.vuego"}, "p.vuego", d))
+			var got []string
+			for _, m := range c05Re.FindAllStringSubmatch(rr.Out, -1) {
+				got = append(got, m[1])
+			}
+			want := []string{"before:PAGE", pc.want, "after:PAGE"}
+			desc := fmt.Sprintf("propnames #%d tag=%v", pi, tag)
+			cp := &Case{Name: desc, Input: map[string]any{"desc": desc, "files": ff}, Impl: rr.canon(), Oracle: &Verdict{OK: true}, Key: desc, Tags: []string{"propnames"}}
+			if rr.Err != "" || strings.Join(got, ",") != strings.Join(want, ",") {
+				cp.Oracle = &Verdict{OK: false, Class: "prop-named-like-a-directive", Detail: fmt.Sprintf("%s: markers %v, expected %v (%s); include tag %s", desc, got, want, rr.Err, inc)}
+			}
+			r.Add(cp)
+		}
+	}
 	// nested includes: props do not leak across levels
 	files := map[string]string{
 		"p.vuego": `<template include="o.vuego" x="PX"></template><i>«p:x={{ x }} y={{ y }}»</i>`,
